@@ -98,7 +98,10 @@ static std::string runOne(int cap, const std::vector<ThreadProg> &prog, const vf
                   }
                   else if (o.op == "size")
                   {
+                    // the three status calls; the size is what the oracle judges (empty/full must agree with some size)
                     v = (int)q->size();
+                    (void)q->empty();
+                    (void)q->full();
                     ok = true;
                   }
                   tr.add(vf::Ev("Ret").str("t", tp.name).str("op", o.op).b("ok", ok).i("v", v));
